@@ -15,10 +15,12 @@ from translate import c04_rounded as trr
 MANIFEST = dict(
     technique='Rocq proof over R (ring/field/nsatz/nra) on formulas, a dispatch table and a Gauss-Jordan row-operation '
               'program regenerated from math.py by ast symbolic executors / loop unrolling; generic theorems + kernel-checked '
-              'instance obligations (table_ok, gj_prog_ok by abstract interpretation, guard_cfg_ok, aliasing polynomials); '
-              'bit-exact correspondence of the extracted expression trees, of every dispatch row, and of the Gauss-Jordan '
-              'interpreter instantiated with IEEE binary64 (Coq primitive floats); numeric oracle on the complete '
-              'operand-type matrix',
+              'instance obligations (table_ok, gj_prog_ok and gj_total_ok by two abstract interpretations, guard_cfg_ok, '
+              'pitch_ok, aliasing polynomials, rounding-error bounds); running error analysis of the sum-of-products '
+              'formulas for every rounding with |rnd t - t| <= u|t| + eta, instantiated for binary64 with Flocq; '
+              'bit-exact correspondence of the extracted expression trees, of every dispatch row, of the Gauss-Jordan '
+              'interpreter instantiated with IEEE binary64 (Coq primitive floats) and of the rounding model against '
+              'CPython floats; numeric oracle on the complete operand-type matrix and on composed rotations',
     text='Theorems in Props/C04.v, about the objects read out of MatrixBase.from_angle/from_pitch/from_yaw/from_roll/'
          '_mat_mul/_vec_rot/transpose/_to_angle/inverse and the @ methods on every run: from_angle is orthonormal with '
          'determinant 1 and equals roll*pitch*yaw in the row-vector convention (axes fixed, handedness at +90 degrees); '
@@ -26,23 +28,34 @@ MANIFEST = dict(
          'inverse of a rotation; for EVERY straight-line program of pivot-search/row-swap, row-elimination and row-scaling '
          'operations accepted by the decidable test gj_prog_ok (abstract interpretation of the left block over {0,1,unknown}), '
          'whenever the interpreter of the program over the reals returns n for input m then n*m = I, hence n = transpose(m) '
-         'for a rotation m; the program unrolled from today\'s MatrixBase.inverse is accepted (instance obligations); '
+         'for a rotation m; for every program accepted by a second decidable test gj_total_ok (interval / determinant '
+         'abstract interpretation: |entry| in [lo, hi], |det| >= d) the interpreter over the reals RETURNS on every rotation '
+         '(no pivot search, division or threshold test can fail), so inverse() = transpose() on rotations without proviso; '
+         'a conditionally skipped elimination is accepted only when the guard fires for a zero multiplier; the program '
+         'unrolled from today\'s MatrixBase.inverse is accepted by both tests (instance obligations); the largest entry of '
+         'every column of a rotation has square >= 1/3; '
          'Matrix->Angle->Matrix is the identity when the horizontal length of the forward row exceeds 0.001 and within '
          '2*that length entrywise otherwise (atan2 enters as a visible hypothesis); the guard of _to_angle, reified as '
          '(operator, operand polynomial under sqrt, literal), is the engine threshold whenever the three named obligations '
-         'hold; for every (operator form, left class, right class, same-object?) the dispatch table generated from '
+         'hold, and the pitch, reified, is atan2(-forward.z, horizontal length) in both branches (total, no asin of a '
+         'rounded entry); the expression trees of _vec_rot and _mat_mul evaluated with binary64 rounding after every + - * '
+         'are within 2e-15 (unit inputs; 2e-9 for vector components up to 1e6) of their real value for all matrices with '
+         'entries up to 1.000001 (running error analysis proved sound for every tree and rounding; binary64 by Flocq); '
+         'for every (operator form, left class, right class, same-object?) the dispatch table generated from '
          '__matmul__/__rmatmul__/__imatmul__ returns the specification product, a fresh result and unchanged operands '
          '(kernel-checked table_ok = true + generic soundness theorem).  The trees, the table and the inverse program are '
          'compared bit-for-bit with the running implementation; all identities are searched numerically within '
          '1e-9*max(1,|v|).',
-    note='Exact real arithmetic: floating-point rounding is outside the theorems (the property says "up to rounding"); the '
-         'binary64 instance of the Gauss-Jordan interpreter is used only for the correspondence.  Axioms: the classical-reals '
-         'axioms of Coq.Reals only.  Trusted: translate/c04_formulas.py, translate/c04_inverse.py (symbolic executors / loop '
+    note='Exact real arithmetic except for the rounding theorems of _vec_rot/_mat_mul (rounded-real model of binary64: round '
+         'to nearest even after every operation, underflow included, overflow excluded; tied to CPython floats by a bit-exact '
+         'correspondence on sampled inputs); for from_angle, _to_angle and inverse() floating-point rounding is outside the '
+         'theorems (the property says "up to rounding"); the binary64 instance of the Gauss-Jordan interpreter is used only '
+         'for the correspondence.  Axioms: the classical-reals axioms of Coq.Reals, plus Classical_Prop.classic through Flocq '
+         'for the rounding theorems.  Trusted: translate/c04_formulas.py, translate/c04_inverse.py (symbolic executors / loop '
          'unroller; tied by the bit-exact correspondences; the polynomial expansion of the reified pieces is re-proved by ring), '
-         'libm sin/cos/atan2/sqrt, Coq primitive floats = hardware binary64.  NOT proved: that inverse() returns (does not '
-         'raise) on every rotation - searched only (oracle: inverse() vs transpose() on every sampled rotation, inverse() of '
-         'scaled rotations is a two-sided inverse); so a too-large diagonal threshold or a pivot search that skips rows is '
-         'caught by the search, not by an obligation.  The Cython twin _math.pyx cannot be built and is not verified.',
+         'libm sin/cos/atan2/sqrt, Coq primitive floats = hardware binary64.  inverse() returning on every rotation is proved in exact arithmetic only: the 1e-5 '
+         'threshold is passed with the proved margins (|pivot| bounds of the final intervals), but no float error bound for '
+         'the elimination is proved.  The Cython twin _math.pyx cannot be built and is not verified.',
 )
 
 CONCRETE = tr.CONCRETE
@@ -930,7 +943,9 @@ def run(ck: Ck) -> None:
         'libm atan2 enters the Euler theorems as the hypothesis atan2_spec (cos/sin of atan2 y x are x/|(x,y)|, y/|(x,y)| away '
         'from the origin); math.radians/degrees are d*PI/180 and t*180/PI; float % 360 is x - 360*floor(x/360).',
         'The float literals 0.001 and 0.00001 are read as the rationals 1/1000 and 1/100000.',
-        'inverse(): the theorems say what inverse() returns WHEN it returns; that it returns on every rotation is searched only.',
+        'inverse(): returning on every rotation is proved over the reals (gj_total_ok); in binary64 it is searched only.',
+        'Rounding theorems: binary64 +, -, * are round-to-nearest-even of the exact result (IEEE 754; overflow excluded); the '
+        'rounded-real model is compared bit for bit with CPython on every run.',
         'Vec arithmetic used by inverse() (-=, *, /= generated by exec() templates, componentwise) is not translated; it is '
         'covered by the bit-exact correspondence of the whole method.',
     ]
@@ -957,21 +972,28 @@ def run(ck: Ck) -> None:
                       + (['Gen/RotRounded_gen.vo'] if ok_rr else [])
                       + (['Gen/RotInverse_gen.vo'] if ok_i else []))
     # 2. instance obligations: the generated objects are accepted by the decidable tests of the generic theorems
+    # One coqc run evaluates all of them, a second one closes the true ones by vm_compute; reflexivity (the groups whose
+    # generated file is missing are left out, so they cannot take the others down).
+    obs: dict[str, str] = {}
+    imports: list[str] = []
+    evals: list[tuple[str, str]] = []
+
+    def group(imps: list[str], d: dict[str, str]) -> None:
+        obs.update(d)
+        imports.extend(i for i in imps if i not in imports)
     if A is not None and models:
-        ck.instance_obligations(DISP_IMPORTS, {
+        group(DISP_IMPORTS, {
             'dispatch_matmul_rows_ok': 'forallb (fun t => triple_ok t && handled t) (rows_of FMatmul dispatch_table)',
             'dispatch_imatmul_rows_ok': 'forallb (fun t => triple_ok t && handled t) (rows_of FImatmul dispatch_table)',
             'dispatch_reflected_rows_ok': 'forallb (fun t => triple_ok t && handled t) (rows_of FRmatmul dispatch_table)',
             'dispatch_table_complete': 'covered dispatch_table',
             'dispatch_table_ok': 'table_ok dispatch_table',
         })
-        vals = ck.coq_eval(DISP_IMPORTS, ['failing dispatch_table'], name='failing')
-        if vals is not None and vals[0] not in ('[]', 'nil'):
-            ck.extra['dispatch_rows_rejected'] = vals[0]
+        evals.append(('dispatch_rows_rejected', 'failing dispatch_table'))
         ck.extra['dispatch_table_rows'] = len(A['rows'])
         ck.extra['mat_mul_alias_safe'] = A['F']['mat_mul_alias_safe']
     if ok_r and models:
-        ck.instance_obligations(REIFY_IMPORTS, {
+        group(REIFY_IMPORTS, {
             'to_angle_guard_operator_is_gt': 'guard_operator_ok ta_guard_cfg',
             'to_angle_guard_literal_is_0_001': 'guard_literal_ok ta_guard_cfg',
             'to_angle_guard_operand_is_horizontal_length': 'guard_operand_ok ta_guard_cfg',
@@ -981,22 +1003,22 @@ def run(ck: Ck) -> None:
             'mat_mul_alias_row_b': 'alias_row_ok 1 mat_mul_self_polys mat_mul_ss_polys',
             'mat_mul_alias_row_c': 'alias_row_ok 2 mat_mul_self_polys mat_mul_ss_polys',
             'mat_mul_alias_safe': 'polys_eqb mat_mul_self_polys mat_mul_ss_polys',
-        }, name='reify')
+        })
     if ok_rr and models:
         # "up to rounding", quantified: the running error analysis (Rot/RotRound.v, sound for every tree and every rounding with
         # |rnd t - t| <= u|t| + eta, binary64 via Flocq) accepts today's trees of _vec_rot / _mat_mul with these bounds
-        ck.instance_obligations(ROUND_IMPORTS, {
+        group(ROUND_IMPORTS, {
             'vec_rot_rounding_error_below_2e-15_for_unit_inputs':
                 'errs_within (1000001 # 1000000) 1 (2 # 1000000000000000) vec_rot_fe',
             'vec_rot_rounding_error_below_2e-9_for_components_up_to_1e6':
                 'errs_within (1000001 # 1000000) 1000000 (2 # 1000000000) vec_rot_fe',
             'mat_mul_rounding_error_below_2e-15_on_rotations': 'errs_within (1000001 # 1000000) 0 (2 # 1000000000000000) mat_mul_fe',
             'rounded_trees_are_float_computations': 'forallb (fun e => Nat.ltb 0 (fe_ops e)) (vec_rot_fe ++ mat_mul_fe)',
-        }, name='round')
+        })
     if ok_i and models:
         # gj_prog_ok: what inverse() returns when it returns; gj_total_ok (Rot/RotGJTotal.v, interval / determinant abstract
         # interpretation): it RETURNS on every rotation
-        ck.instance_obligations(GJT_IMPORTS, {
+        group(GJT_IMPORTS, {
             'inverse_left_block_is_self': 'init_l_ok inverse_prog',
             'inverse_right_block_starts_as_identity': 'init_r_ok inverse_prog',
             'inverse_result_is_right_block': 'out_ok inverse_prog',
@@ -1008,14 +1030,19 @@ def run(ck: Ck) -> None:
             'inverse_divisors_nonzero_on_rotations': 'divisors_nonzero inverse_prog',
             'inverse_threshold_tests_pass_on_rotations': 'thresholds_passed inverse_prog',
             'inverse_total_on_rotations': 'gj_total_ok inverse_prog',
-        }, name='gj')
-        vals = ck.coq_eval(GJT_IMPORTS, ['abs_run (gp_ops inverse_prog) top3', 'total_trace inverse_prog',
-                                         'abs2_fail (gp_ops inverse_prog) rot_init'], name='gjabs')
-        if vals is not None:
-            ck.extra['inverse_left_block_final_pattern'] = vals[0]
-            ck.extra['inverse_final_intervals_on_rotations'] = ' '.join(vals[1].split())
-            ck.extra['inverse_first_operation_not_shown_to_succeed'] = ' '.join(vals[2].split())
+        })
+        evals += [('inverse_left_block_final_pattern', 'abs_run (gp_ops inverse_prog) top3'),
+                  ('inverse_final_intervals_on_rotations', 'total_trace inverse_prog'),
+                  ('inverse_first_operation_not_shown_to_succeed', 'abs2_fail (gp_ops inverse_prog) rot_init')]
         ck.extra['inverse_program'] = [tri.coq_op(o) for o in tri.analyse()['P']['ops']]
+    if obs:
+        ck.instance_obligations(imports, obs, name='inst')
+        vals = ck.coq_eval(imports, [e for _, e in evals], name='extras')
+        if vals is not None:
+            for (k, _), v in zip(evals, vals):
+                v = ' '.join(v.split())
+                if not (k == 'dispatch_rows_rejected' and v in ('[]', 'nil')):
+                    ck.extra[k] = v
     # 3. the proofs about the generated formulas
     if A is not None and models:
         core = ck.build(['Rot/RotAlgebra.vo', 'Rot/RotAliasProofs.vo', 'Rot/RotEulerProofs.vo', 'Rot/RotDispatchProofs.vo',
@@ -1051,6 +1078,10 @@ def run(ck: Ck) -> None:
         ck.explain('instance:inverse_')
         # the translator could not read inverse() (fail closed) AND the search exhibits a concrete wrong inverse
         ck.explain('translate:RotInverse_gen')
+    # a changed _vec_rot / _mat_mul tree changes its error bound too: explained by the concrete wrong value
+    for fn, pref in (('_vec_rot', 'instance:vec_rot_rounding'), ('_mat_mul', 'instance:mat_mul_rounding')):
+        if any(k.startswith(FUNCTION_EXPLAINED_BY[fn]) for k in keys):
+            ck.explain(pref)
     explain_translate(ck, keys)
     explain_build(ck, keys)
 
